@@ -149,6 +149,10 @@ impl<T: Value> ErasedObserver for InternalObserver<T> {
             /* We have to test [state] before each on-update handler, because an on-update
             handler might disable its own observer, which should prevent other on-update
             handlers in the same observer from running. */
+            #[cfg(cormacrelf_incremental_rs_verif)]
+            if self.state.get() == Disallowed {
+                crate::verif::probe(crate::verif::Probe::HandlerSkippedDisallowed);
+            }
             match self.state.get() {
                 Created | Unlinked => panic!(),
                 Disallowed => (),
